@@ -686,7 +686,11 @@ class ttensor:
 
         # TODO: Lifted from tensor, consider common location
         if r < Y.shape[0] - 1:
-            w, v = scipy.sparse.linalg.eigsh(Y, r)
+            # ARPACK's convergence test has an absolute floor (eps**(2/3)): a Gram matrix
+            # far below one would be solved to a few digits only, so solve a scaled copy
+            # (the eigenvectors are the same)
+            scale = abs(Y).max()
+            w, v = scipy.sparse.linalg.eigsh(Y / scale if scale > 0 else Y, r)
             v = v[:, (-np.abs(w)).argsort()]
             v = v[:, :r]
         else:
